@@ -186,10 +186,18 @@ Definition s_read_double (s : stream) : option ftok * stream :=
 Definition in_delims (delims : list byte) (c : byte) : bool :=
   (N.eqb c 0 || existsb (N.eqb c) delims)%bool.   (* strchr also matches the terminator *)
 
-Fixpoint skip_to_delim (delims : list byte) (l : list byte) : option (byte * list byte) :=
+(* the skipping loop of CheckRemainingInput: up to a delimiter, but not beyond the semicolon that ends the instance *)
+Inductive skipres : Set :=
+| SkFound (d : byte) (r : list byte)     (* a delimiter: recovered *)
+| SkSemi (r : list byte)                 (* stopped at a semicolon (put back) *)
+| SkEnd.                                 (* end of the input *)
+
+Fixpoint skip_to_delim (delims : list byte) (l : list byte) : skipres :=
   match l with
-  | c :: r => if in_delims delims c then Some (c, r) else skip_to_delim delims r
-  | [] => None
+  | c :: r => if in_delims delims c then SkFound c r
+              else if N.eqb c 59 then SkSemi r
+              else skip_to_delim delims r
+  | [] => SkEnd
   end.
 
 (* delims = None models a NULL tokenList *)
@@ -205,9 +213,10 @@ Definition check_remaining (s : stream) (sev : Z) (delims : option (list byte)) 
           | c :: r =>
               if in_delims ds c then (sev, s1)
               else
-                match skip_to_delim ds r with
-                | Some (d, r') => (greater sev SEVERITY_WARNING, mkS (d :: r') false false)
-                | None => (greater sev SEVERITY_INPUT_ERROR, mkS [] true true)
+                match skip_to_delim ds (c :: r) with
+                | SkFound d r' => (greater sev SEVERITY_WARNING, mkS (d :: r') false false)
+                | SkSemi r' => (greater sev SEVERITY_INPUT_ERROR, mkS (59%N :: r') false false)
+                | SkEnd => (greater sev SEVERITY_INPUT_ERROR, mkS [] true true)
                 end
           | [] => (sev, s1)
           end
